@@ -65,7 +65,7 @@ ASSERT = {
   'gof':  {'p.total': ['C07'], 'p.faithful': ['C07']},
   'hashdiff': {'p.distinct': ['C09']},
   'ecache': {'p.keyexact': ['C16']},
-  'dialog': {'p.nopanic': ['C07', 'C06'], 'p.answered': ['C06', 'C05'], 'p.bestlegal': ['C04', 'C06']},
+  'dialog': {'p.nopanic': ['C07', 'C06'], 'p.answered': ['C06', 'C05'], 'p.bestlegal': ['C04', 'C06'], 'p.onebest': ['C05', 'C06']},
   'timed': {'p.intime': ['C05']},
   'conc': {'p.live': ['C06', 'C05'], 'p.prompt': ['C06', 'C05'], 'p.whole': ['C06'], 'p.bestlegal': ['C04', 'C06']},
   'procuci': {'p.live': ['C06', 'C07'], 'p.prompt': ['C06'], 'p.whole': ['C06']},
